@@ -160,6 +160,9 @@ func fdSet() map[string]bool {
 		if strings.HasSuffix(b, ".sst") || strings.HasSuffix(b, ".vlog") || b == "MANIFEST" || b == "LOCK" {
 			continue
 		}
+		if dataDir != "" && strings.HasPrefix(t, dataDir) {
+			continue // the store's own directory (it opens it to sync after creating a table file)
+		}
 		set[e.Name()+" -> "+t] = true
 	}
 	return set
